@@ -27,6 +27,13 @@ func baseEnv() []string {
 		"GIT_TERMINAL_PROMPT=0",
 		"LANG=C", "LC_ALL=C", "TZ=UTC",
 		"GIT_AUTHOR_DATE=2021-01-01T00:00:00Z", "GIT_COMMITTER_DATE=2021-01-01T00:00:00Z",
+		// stock git must not fan out into one thread per core for three tiny objects (16 workers
+		// run side by side), nor start background maintenance
+		"GIT_CONFIG_COUNT=4",
+		"GIT_CONFIG_KEY_0=pack.threads", "GIT_CONFIG_VALUE_0=1",
+		"GIT_CONFIG_KEY_1=index.threads", "GIT_CONFIG_VALUE_1=1",
+		"GIT_CONFIG_KEY_2=gc.auto", "GIT_CONFIG_VALUE_2=0",
+		"GIT_CONFIG_KEY_3=maintenance.auto", "GIT_CONFIG_VALUE_3=false",
 	}
 	return env
 }
@@ -37,7 +44,48 @@ type runResult struct {
 	Code int
 }
 
+// starved reports whether a message says the machine could not start a process or thread: an
+// accident of the (shared, possibly overloaded) machine, never an observation about git-bug.
+func starved(msg string) bool {
+	l := strings.ToLower(msg)
+	return strings.Contains(l, "resource temporarily unavailable") || strings.Contains(l, "cannot fork") || strings.Contains(l, "unable to create thread") || strings.Contains(l, "cannot allocate memory")
+}
+
+// run starts a process and waits for it. Failures to start for lack of resources are retried.
 func run(dir string, timeout time.Duration, name string, args ...string) (runResult, error) {
+	var r runResult
+	var err error
+	for attempt := 0; attempt < 8; attempt++ {
+		r, err = runOnce(dir, timeout, name, args...)
+		if err != nil && starved(err.Error()) {
+			time.Sleep(time.Duration(300*(attempt+1)) * time.Millisecond)
+			continue
+		}
+		return r, err
+	}
+	return r, err
+}
+
+// runGit runs an idempotent stock-git command; it is repeated when git itself reports that it
+// could not fork or create a thread.
+func runGit(dir string, timeout time.Duration, cleanup func(), args ...string) (runResult, error) {
+	var r runResult
+	var err error
+	for attempt := 0; attempt < 8; attempt++ {
+		r, err = run(dir, timeout, "git", args...)
+		if err == nil && r.Code != 0 && starved(r.Err+r.Out) {
+			if cleanup != nil {
+				cleanup()
+			}
+			time.Sleep(time.Duration(500*(attempt+1)) * time.Millisecond)
+			continue
+		}
+		return r, err
+	}
+	return r, fmt.Errorf("git %v: the machine keeps refusing to start processes: %s", args, strings.TrimSpace(r.Err))
+}
+
+func runOnce(dir string, timeout time.Duration, name string, args ...string) (runResult, error) {
 	cmd := exec.Command(name, args...)
 	cmd.Dir = dir
 	cmd.Env = baseEnv()
@@ -70,7 +118,7 @@ func run(dir string, timeout time.Duration, name string, args ...string) (runRes
 
 // git runs stock git and fails on a non-zero exit.
 func git(dir string, args ...string) (string, error) {
-	r, err := run(dir, 60*time.Second, "git", args...)
+	r, err := runGit(dir, 120*time.Second, nil, args...)
 	if err != nil {
 		return "", err
 	}
